@@ -78,7 +78,9 @@ def shapes():
     for T in (1, 2, 5):
         for kind in ("uniform", "nonuniform"):
             times = tuple(0.1 * k for k in range(T)) if kind == "uniform" else NONUNIFORM[:T]
-            for D, mk in ((1, "single"), (3, "contig"), (3, "split")):
+            for D, mk in ((1, "single"), (3, "contig"), (3, "split"), (4, "inter")):
+                if mk == "inter" and T == 1:
+                    continue
                 if (times, D, mk) in seen:
                     continue
                 seen.add((times, D, mk))
@@ -97,8 +99,11 @@ def make_series(shape):
         mp = {"a": (ty, np.array([0]))}
     elif mk == "contig":
         mp = {"a": (ty, np.array([0])), "b": (ty, np.array([1, 2]))}
-    else:
+    elif mk == "split":
         mp = {"a": (ty, np.array([0, 2])), "b": (ty, np.array([1]))}
+    else:
+        # interleaved sensors (pos, torque, pos, torque): two delay groups whose column ranges overlap
+        mp = {"a": (ty, np.array([0, 2])), "b": (ty, np.array([1, 3]))}
     return M["ts"].TimeSeries(times, data, mp)
 
 
